@@ -106,6 +106,10 @@ def run(ctx: Ctx):
     from . import tracking_manager
 
     ctx.extra["tracking_histories_in_both_frames"] = tracking_manager.run(ctx, renderings=("base_link", "map"), n=25 if ctx.quick else 250, compare=True)
+    # engine T: large random scenes stored in map under an arbitrary ego pose must be behaviours of the same (ego-relative) specification
+    from . import pipeline_trace
+
+    ctx.extra["manager_executions_validated_as_traces"] = pipeline_trace.run(ctx, n=150 if ctx.quick else 3000, want=lambda rendering, clause: rendering == "map")
     # ground truth obtained by time lookup (exact and interpolated) from the manager, moving ego, both storage frames
     from ..core import pmap
 
